@@ -79,14 +79,14 @@ deriving DecidableEq, Repr
 
 /-- one byte of the row: filter type `f` (1 Sub, 3 Average, 4 Paeth) -/
 def step (v : Variant) (f : Nat) (prevEmpty : Bool) (a b c x : Nat) : Nat :=
-  match f, v with
-  | 1, .portable => subPortable a x
-  | 1, .sse => subSse a x
-  | 3, .portable => if prevEmpty then avgFirstPortable a x else avgPortable a b x
-  | 3, .sse => if prevEmpty then avgFirstSse a x else avgSse a b x
-  | 4, .portable => paethPortable a b c x
-  | 4, .sse => paethSse a b c x
-  | _, _ => x
+  if f = 1 then
+    (match v with | .portable => subPortable a x | .sse => subSse a x)
+  else if f = 3 then
+    (if prevEmpty then (match v with | .portable => avgFirstPortable a x | .sse => avgFirstSse a x)
+     else (match v with | .portable => avgPortable a b x | .sse => avgSse a b x))
+  else if f = 4 then
+    (match v with | .portable => paethPortable a b c x | .sse => paethSse a b c x)
+  else x
 
 /-- a whole row with filter distance `d` (bytes per pixel): `curr` is filtered in place, left to right -/
 def runRow (v : Variant) (f d : Nat) (curr prev : Array UInt8) : List UInt8 :=
